@@ -138,7 +138,7 @@ def scenario_1() -> int:
             print("DEFECT C33: the worker stopped accepting while a connection it accepted is being served (shutdown_requested was not invalidated by the accept)")
             bad = 1
     t_close = time.monotonic()
-    th.join(15)
+    th.join(3)
     print(f"1: after the first client left: serve thread alive={th.is_alive()} ({time.monotonic() - t_close:.1f}s later), socket path exists={os.path.exists(path)}; idle_timeout={IDLE:.0f}s")
     if not th.is_alive():
         print(f"DEFECT C33: the worker vanished right after serving a connection, {IDLE:.0f}s before its idle timeout")
